@@ -59,9 +59,12 @@ def run(ctx):
   ctx.ob('ORD/pm-write-sorts', w, 'PrettyMIDI.write', ok, 'installed PrettyMIDI.write sorts events (bag accumulation into pm lists is order-insensitive)' if ok else
          'installed PrettyMIDI.write does not sort: accumulation order would reach the file', construct='PrettyMIDI.write sorts')
   from sa import pitfalls
+  pitfalls.apply(ctx, 'PITFALL', [fi_ for q_, fi_ in sorted(ctx.P.module('midi_io').functions.items())], ['wrapper-default'], {
+      'wrapper-default': 'the file route no longer writes what the conversion produces: events the in-memory conversion keeps (a pedal release, a tempo or key change after the last note) are dropped from the file'})
   pitfalls.apply(ctx, 'PITFALL', [w0, r], ['stale-sibling'], {
       'stale-sibling': 'every interval after the first is measured with the first element\'s scale: tempo changes after the second are placed at the wrong time'})
   tempo_ticks(ctx, w0, 'TEMPO/tick-from-table')
+  reader_keeps_events(ctx, r, 'FIELDS/reader-keeps-every-event')
   grouping.check(ctx, w0, 'GROUP/sort-refines-group-key')
   grouping.check(ctx, r, 'GROUP/sort-refines-group-key')
   order(ctx, w0)       # the generic order analysis first: it needs no anchor, so a reshaped accumulation is still judged
@@ -524,6 +527,49 @@ def tempo_ticks(ctx, w0, rule):
   if n == 0:
     why = 'cannot classify: no append to _tick_scales found'
     ctx.ob(rule, w0, fn, False, why, construct='tempo changes are appended to _tick_scales', unknown=why)
+
+
+def reader_keeps_events(ctx, r, rule):
+  """Location-independent: every time signature and key signature of the file comes back.  A `continue` (or a filter) in the
+  reader loops over midi.time_signature_changes / midi.key_signature_changes drops events; that is harmless only for exact
+  repeats of the value in effect.  A skip decided on the *quotient* numerator / denominator treats 3/4 and 6/8 (2/2 and 4/4,
+  6/4 and 12/8 ...) as the same meter and loses a real change - located; any other skip is "cannot classify"."""
+  fn = r.node
+  n = 0
+  for lp in ast.walk(fn):
+    if not (isinstance(lp, ast.For) and any(norm_text(lp.iter).endswith(x) for x in ('.time_signature_changes', '.key_signature_changes'))):
+      continue
+    n += 1
+    cons = 'every %s event of the file is read back' % ('time signature' if 'time_signature' in norm_text(lp.iter) else 'key signature')
+    skips = [st for st in U.walk_stmts(lp) if isinstance(st, ast.Continue)]
+    if not skips and not (isinstance(lp.iter, ast.Call) or any(isinstance(x, (ast.ListComp, ast.GeneratorExp)) for x in ast.walk(lp.iter))):
+      ctx.ob(rule, r, lp, True, 'no event of %s is skipped' % norm_text(lp.iter), construct=cons)
+      continue
+    for sk in skips:
+      conds = [U.expand_locals(fn, t, at=sk) for t, _p in U.path_conditions(fn, sk, stop_at=lp)]
+      # values carried from the previous iteration are compared with this iteration's: look through the carried names too
+      texts = []
+      for t in conds:
+        for x in ast.walk(t):
+          if isinstance(x, ast.Name):
+            for st in U.walk_stmts(lp):
+              if isinstance(st, ast.Assign) and len(st.targets) == 1 and isinstance(st.targets[0], ast.Name) and st.targets[0].id == x.id:
+                texts.append(U.expand_locals(fn, st.value, at=st))
+        texts.append(t)
+      quotient = [x for t in texts for x in ast.walk(t) if isinstance(x, ast.BinOp) and isinstance(x.op, (ast.Div, ast.FloorDiv)) and
+                  any(isinstance(y, ast.Attribute) and y.attr == 'numerator' for y in ast.walk(x.left)) and any(isinstance(y, ast.Attribute) and y.attr == 'denominator' for y in ast.walk(x.right))]
+      if quotient:
+        ctx.ob(rule, r, sk, False, 'a time signature is skipped when %s equals that of the one before: 3/4 and 6/8 (2/2 and 4/4, 6/4 and 12/8) have the same quotient, so a change between '
+               'them is dropped on reading and the earlier signature stays in effect' % norm_text(quotient[0]), construct=cons, definite=True)
+      else:
+        why = 'cannot classify: events of %s are skipped when %s' % (norm_text(lp.iter), ' and '.join(norm_text(t) for t in conds)[:120])
+        ctx.ob(rule, r, sk, False, why, construct=cons, unknown=why)
+    if not skips:
+      why = 'cannot classify: the reader iterates %s, a filtered view of the file\'s events' % norm_text(lp.iter)[:80]
+      ctx.ob(rule, r, lp, False, why, construct=cons, unknown=why)
+  if n < 2:
+    why = 'cannot classify: the reader loops over the time and key signature changes were not both found'
+    ctx.ob(rule, r, fn, False, why, construct='every signature event of the file is read back', unknown=why)
 
 
 def tempo(ctx, w):
